@@ -109,3 +109,19 @@ def verilate(top, sources, prefix, extra=()):
         _run(cmd + ['--Mdir', d] + srcs)
     os.utime(d)
     return d
+
+def tool_hextb():
+    """build hextb (Verilated RTL + testbench) from the working tree with the arguments of the CMake build"""
+    srcs = ['verilog/hex_pkg.sv', 'verilog/hex.sv', 'verilog/processor.sv', 'verilog/memory.sv']
+    d = verilate('hex', srcs, 'Vhex_pkg', extra=['--trace'])
+    import glob as _g
+    cpps = sorted(_g.glob(os.path.join(d, 'Vhex_pkg*.cpp')))
+    vl = [os.path.join(VL_INC, f) for f in ('verilated.cpp', 'verilated_vcd_c.cpp', 'verilated_threads.cpp')]
+    cmd = ['g++', '-std=c++17', '-O1', '-DNDEBUG', '-w', '-I' + REPO, '-I' + d, '-I' + VL_INC, '-I' + os.path.join(VL_INC, 'vltstd')]
+    out_d = _dir('hextb', _key(cmd + cpps + [os.path.join(REPO, 'hextb.cpp')]))
+    out = os.path.join(out_d, 'hextb')
+    if not os.path.exists(out):
+        _run(cmd + [os.path.join(REPO, 'hextb.cpp'), os.path.join(REPO, 'hex.cpp')] + cpps + vl + ['-o', out + '.tmp', '-lpthread'], timeout=1800)
+        os.replace(out + '.tmp', out)
+    os.utime(out_d)
+    return out
